@@ -55,7 +55,7 @@ def replayer_sim(extra, path):
     return replayer(extra, path, nw=NW_SIM)
 
 
-NW_SIM = 12
+NW_SIM = 20
 
 
 def random_trace(args):
@@ -150,13 +150,13 @@ def run(ctx):
             name, L, ov["Timeouts"], ov["MaxAdvance"], ov["MaxNotify"]))
     ctx.cov["exhaustive"] = True
     # long seeded walks through larger constants
-    sims = ctx.sim_paths("sync", "Gen_CondEvent", "Gen_CondEvent.cfg", num=ctx.pick(300, 4000), depth=40,
-                         overrides={"L": 40, "NW": NW_SIM, "Timeouts": "{0, 1, 2, 3, 999}", "MaxAdvance": 3, "MaxNotify": 4})
-    ctx.replay(sims, replayer_sim, label="s2c-sim")
+    sync_paths.sim_replay(ctx, "Gen_CondEvent", "Gen_CondEvent.cfg", num=ctx.pick(600, 20000), depth=40,
+                          overrides={"L": 40, "NW": NW_SIM, "Timeouts": "{0, 1, 2, 3, 999}", "MaxAdvance": 3, "MaxNotify": 4},
+                          replayer=replayer_sim)
     # 3. code -> spec: random recorded runs validated by TLC
     c2s(ctx, ctx.pick(240, 4000))
     ctx.cov["rule"] = ("paths: " + "; ".join(rule) + "; per object kind (Condition, Event); plus seeded TLC simulation "
-                       "walks (depth 40, 12 waiters) and random recorded runs; distinct = distinct (config, operation "
+                       "walks (depth 40, 20 waiters) and random recorded runs; distinct = distinct (config, operation "
                        "sequence); non-trivial = length >= 2 with a non-advance op")
 
 
